@@ -133,6 +133,10 @@ func c09Physical(chk *fw.Check, c *c08Cast, tier string) (evals, nontrivial int)
 			chk.Violation("C09|missing-table-file-answered-not-revoked", fmt.Sprintf("table file %s of the persisted store removed, crl_cdp_strict on: the restarted validator accepts the listed certificate", filepath.Base(t)), nil)
 		}
 	}
+	// the same with a list large enough for the database to consist of several table files (records of different
+	// certificates live in different files, the meta record in one of them): each file removed in turn, 150 listed
+	// certificates spread over the list presented
+	evals += c09BigMissingTable(chk, c)
 	masks := []byte{0xff}
 	if tier == "thorough" {
 		masks = []byte{0x01, 0x02, 0x04, 0x08, 0x10, 0x20, 0x40, 0x80, 0xff}
@@ -178,6 +182,83 @@ func c09Physical(chk *fw.Check, c *c08Cast, tier string) (evals, nontrivial int)
 						map[string]interface{}{"offset": off, "mask": m})
 				}
 			}
+		}
+	}
+	return
+}
+
+func c09BigMissingTable(chk *fw.Check, c *c08Cast) (evals int) {
+	const n, step = 150000, 1000
+	const bigBase = int64(5000000)
+	serials := make([]int64, n)
+	for i := range serials {
+		serials[i] = bigBase + int64(i)
+	}
+	doc := world.SimpleCRL(c.p.CA, 1, serials...).DER()
+	base := FreshDir("c09big")
+	defer os.RemoveAll(base)
+	var probes []*world.Ident
+	for i := 0; i < n; i += step {
+		probes = append(probes, world.Leaf(c.p.CA, bi(bigBase+int64(i)), []string{urlA}, nil))
+	}
+	run := func(dir string, serve, strict bool) (accepted, revoked, failed int, provErr string) {
+		seqWorld(func() {
+			w := NewCW(CWOpt{Disk: true, SigMode: config.SignatureValidationModeVerify, Dir: dir, Strict: strict})
+			if serve {
+				w.Net.Serve(urlA, "big", doc)
+			} else {
+				w.Net.Down(urlA)
+			}
+			if err := w.Provision(); err != nil {
+				provErr = err.Error()
+				return
+			}
+			vsched.Drain()
+			for _, pr := range probes {
+				v := w.Lookup(pr, c.chain(pr))
+				switch {
+				case v.Revoked:
+					revoked++
+				case v.Err != "" || v.Panic != "":
+					failed++
+				default:
+					accepted++
+				}
+			}
+			w.Chk.Cleanup()
+		})
+		return
+	}
+	if a, r, f, e := run(base, true, false); e != "" || r != len(probes) {
+		chk.Violation("C09|harness|big-store-setup", fmt.Sprintf("setup: %s accepted=%d revoked=%d failed=%d", e, a, r, f), nil)
+		return
+	}
+	for i := 0; i < 2; i++ {
+		run(base, false, false)
+	}
+	var tables []string
+	filepath.Walk(base, func(p string, info os.FileInfo, err error) error {
+		if err == nil && !info.IsDir() && strings.HasSuffix(p, ".ldb") {
+			tables = append(tables, p)
+		}
+		return nil
+	})
+	c09PhysOutcomes[fmt.Sprintf("large store: %d table files", len(tables))]++
+	for _, t := range tables {
+		rel, _ := filepath.Rel(base, t)
+		dir := FreshDir("c09bigdel")
+		if out, err := exec.Command("cp", "-a", base+"/.", dir).CombinedOutput(); err != nil {
+			chk.Violation("C09|harness|physical-copy", string(out), nil)
+			os.RemoveAll(dir)
+			return
+		}
+		os.Remove(filepath.Join(dir, rel))
+		a, r, f, e := run(dir, false, true)
+		os.RemoveAll(dir)
+		evals++
+		c09PhysOutcomes[fmt.Sprintf("large store, one table file removed: provision-error=%v accepted=%d revoked=%d failed=%d", e != "", a, r, f)]++
+		if e == "" && a > 0 {
+			chk.Violation("C09|missing-table-file-answered-not-revoked", fmt.Sprintf("table file %s of a persisted store of %d entries removed, crl_cdp_strict on: the restarted validator accepts %d of %d listed certificates (%d rejected as revoked, %d denied with an error)", filepath.Base(t), n, a, len(probes), r, f), nil)
 		}
 	}
 	return
